@@ -261,8 +261,11 @@ fn gen_unamb(g: &mut Gen, kind: i128, year_abs_lt: i128) -> Vec<Item> {
         // hour: 24-hour field, 12-hour field with marker, and the partial forms: marker alone, 12-hour field alone, nothing
         let mut has_hour = true;
         match g.rng.next() % 8 {
-            0 | 1 => fields.push(Item::Field('H', *g.rng.pick(&[1usize, 2, 2]))),
-            2 => fields.push(Item::Field('k', *g.rng.pick(&[1usize, 2]))),
+            0 | 1 => { fields.push(Item::Field('H', *g.rng.pick(&[1usize, 2, 2])));
+                       // a 24-hour field next to a marker: the marker is redundant but legal (the hour field wins)
+                       if g.rng.chance(1, 5) { fields.push(Item::Field('a', *g.rng.pick(&[1usize, 3, 4]))); } }
+            2 => { fields.push(Item::Field('k', *g.rng.pick(&[1usize, 2])));
+                   if g.rng.chance(1, 3) { fields.push(Item::Field('a', *g.rng.pick(&[1usize, 3, 4]))); } }
             3 => { fields.push(Item::Field('h', *g.rng.pick(&[1usize, 2]))); fields.push(Item::Field('a', *g.rng.pick(&[1usize, 3, 4]))); }
             4 => { fields.push(Item::Field('K', *g.rng.pick(&[1usize, 2]))); fields.push(Item::Field('a', *g.rng.pick(&[2usize, 3, 4]))); }
             5 => { has_hour = false; fields.push(Item::Field('a', *g.rng.pick(&[1usize, 3, 4, 5]))); }
@@ -568,6 +571,22 @@ pub fn gen_c20(g: &mut Gen, tier: &str) {
         g.push(true, Input::new("serde_rt", ints.clone()));
     }
     if tier == "thorough" { for s in 0..86_400i128 { g.push(true, Input::new("serde_rt", vec![1, s * NPS, 0])); } }
+    // the error side: well-formed texts of the three types with one or two characters deleted, inserted or replaced
+    // (ASCII punctuation, digits, and 2-, 3-, 4-byte characters) - an error, never a panic
+    {
+        let alphabet: Vec<char> = "019+-:.ZTtz \u{e9}\u{20ac}\u{1f600}\u{663}".chars().collect();
+        let bases: [(i128, &str); 6] = [(2, "2022-05-02T15:30:20.123+05:30"), (2, "2022-05-02T15:30:20Z"), (2, "0001-01-01T00:00:00.000000001-00:00"),
+                                        (0, "2022-05-02"), (0, "-0044-03-15"), (1, "15:30:20")];
+        for k in 0..(n / 2) {
+            let (kind, base) = bases[k % bases.len()];
+            let mut cs: Vec<char> = base.chars().collect();
+            for _ in 0..(1 + g.rng.next() % 2) { if cs.is_empty() { break; } let p = (g.rng.next() as usize) % cs.len();
+                match g.rng.next() % 3 { 0 => { cs.remove(p); } 1 => cs.insert(p, *g.rng.pick(&alphabet)), _ => cs[p] = *g.rng.pick(&alphabet) } }
+            let st: String = cs.into_iter().collect();
+            g.push(true, Input::with_strs("fromstr", vec![kind], vec![st.clone()]));
+            g.push(true, Input::with_strs("serde_de", vec![kind], vec![st]));
+        }
+    }
     for s in ["2022-05-02", "-2022-05-02", "12345-01-01", "2022-5-2", "2022-02-30", "0000-01-01", "12:30:45", "24:00:00", "1:2:3", "2022-05-02T15:30:20Z", "2022-05-02T15:30:20+01:00",
               "", "x", "\u{e9}", "2022-05-02T15:30:2\u{e9}Z", "99999999999-01-01", "5879611-07-12", "5879611-07-13", "-5879611-06-23", "-5879611-06-22"] {
         for kind in 0..3i128 { g.push(true, Input::with_strs("fromstr", vec![kind], vec![s.to_string()])); g.push(true, Input::with_strs("serde_de", vec![kind], vec![s.to_string()])); }
